@@ -155,3 +155,38 @@ fn c05_origin_union() {
     assert!(u.is_superset(&p) == (in_a || in_b), "union of two origins is not the set union");
     assert!(u.is_superset(&a) && u.is_superset(&b), "union does not contain both operands");
 }
+
+/// C10-K1 (rule-free worlds): `World::run_with_limits` on a store with facts and no rule, for every
+/// limit triple: it returns Ok after one round, adds no iteration, and - the property's wording -
+/// reports no more facts than the budget on success.
+#[kani::proof]
+#[kani::stub(regex::Regex::new, crate::kh_support::regex_new_stub)]
+#[kani::stub(regex::Regex::is_match, crate::kh_support::regex_is_match_stub)]
+#[kani::unwind(6)]
+fn c10_run_without_rules() {
+    let mut w = World::new();
+    let mut o = Origin::default();
+    o.insert(0);
+    w.facts.insert(&o, Fact { predicate: Predicate { name: 1, terms: vec![Term::Integer(kani::any())] } });
+    w.facts.insert(&o, Fact { predicate: Predicate { name: 2, terms: vec![Term::Integer(kani::any())] } });
+    let it0: u64 = kani::any();
+    w.iterations = it0;
+    let (mf, mi): (u64, u64) = (kani::any(), kani::any());
+    let s: u64 = kani::any();
+    let n: u32 = kani::any();
+    kani::assume(n < 1_000_000_000);
+    let limits = RunLimits { max_facts: mf, max_iterations: mi, max_time: Duration::new(s, n) };
+    let syms = SymbolTable::new();
+    crate::kh_support::clock_reset();
+    let r = w.run_with_limits(&syms, limits);
+    let ok = r.is_ok();
+    let count = w.facts.len();
+    let it1 = w.iterations;
+    std::mem::forget(r);
+    std::mem::forget(w);
+    std::mem::forget(syms);
+    kani::cover!(ok, "witness: the run reached its fixpoint");
+    assert!(ok, "a world without rules does not reach its fixpoint in one round");
+    assert!(it1 == it0 && count == 2, "a round that derived nothing changed the iteration count or the facts");
+    assert!(count as u64 <= mf, "the run succeeds with more facts than the fact budget");
+}
